@@ -325,6 +325,40 @@ theorem process_rkx (s : State) (u : Nat) (h : Hdr) : RKX u s (processMessage cf
             · exact (rkx_upd s u (fun m => { m with pid := bufI32 s.buf 0 }) (fun _ => rfl)).trans (sendInfo_rk cfg _ _ u)
             · exact (logTop_rk cfg _ 10 s).trans (fwdTop_rk cfg _ _ _)
 
+theorem foldl_fwd_rk (p : Nat → Bool) : ∀ (fs : List Frame) (s : State), RKP p s (fs.foldl (fwdTop cfg) s)
+  | [], s => RKP.refl p s
+  | f :: rest, s => by simp only [List.foldl_cons]; exact (fwdTop_rk cfg p s f).trans (foldl_fwd_rk p rest _)
+
+theorem infoAll_rk (p : Nat → Bool) : ∀ (ms : List Module) (s : State), RKP p s (infoAll cfg ms s)
+  | [], s => RKP.refl p s
+  | m :: rest, s => by unfold infoAll; exact (infoOf_rk cfg p s _).trans (infoAll_rk p rest _)
+
+/-- the periodic section keeps every entry -/
+theorem ticks_rk (p : Nat → Bool) (s : State) : RKP p s (ticks cfg s) := by
+  unfold ticks
+  dsimp only
+  have h1 : RKP p s (if (cfg.timing && decide (s.now - s.tTiming > 900)) = true then
+      { sendTiming cfg s with tTiming := s.now } else s) := by
+    split
+    · unfold sendTiming; dsimp only
+      exact (((rkp_same (s := s) (s' := { s with counts := [], inTraffic := true }) rfl).trans (fwdTop_rk cfg p _ _)).trans
+        (rkp_same rfl)).trans (rkp_same rfl)
+    · exact RKP.refl p s
+  generalize (if (cfg.timing && decide (s.now - s.tTiming > 900)) = true then
+      { sendTiming cfg s with tTiming := s.now } else s) = s1 at h1 ⊢
+  have h2 : RKP p s1 (if s1.now - s1.tTraffic > 1000 then sendTraffic cfg s1 else s1) := by
+    split
+    · unfold sendTraffic; dsimp only
+      exact (((rkp_same (s := s1) (s' := { s1 with inTraffic := true }) rfl).trans (logTop_rk cfg p 10 _)).trans
+        (foldl_fwd_rk cfg p _ _)).trans (rkp_same rfl)
+    · exact RKP.refl p s1
+  generalize (if s1.now - s1.tTraffic > 1000 then sendTraffic cfg s1 else s1) = s2 at h2 ⊢
+  refine (h1.trans h2).trans ?_
+  split
+  · unfold sendActive; dsimp only
+    exact (((logTop_rk cfg p 10 s2).trans (infoAll_rk cfg p _ _)).trans (fwdTop_rk cfg p _ _)).trans (rkp_same rfl)
+  · exact RKP.refl p s2
+
 /-! ## the requester's own entry -/
 
 theorem rkp_gone {p : Nat → Bool} {s s' : State} (h : RKP p s s') {u : Nat} (hp : p u = false) (hg : s.find u = none) :
@@ -384,6 +418,50 @@ theorem connectModule_cases (s : State) (u : Nat) (h : Hdr) (m : Module) (hm : s
         refine ⟨nm, { (s.upd u (setAll cfg s.buf h nm)) with nextDyn := off }, fun m => { m with modId := id, connected := true },
           rfl, rkp_same rfl, fun x => ⟨rfl, rfl, rfl, rfl, fun hne => ?_⟩, by trivial, by trivial⟩
         exact absurd (by simpa using hz) hne
+
+/-- frames other than connect requests and MODULE_READY leave `tabv` and the connected flag of every entry alone -/
+theorem process_rk_plain (s : State) (u : Nat) (h : Hdr)
+    (hc : (h.mtype == cfg.mtConnect || h.mtype == cfg.mtConnectV2) = false) (hr : (h.mtype == cfg.mtModuleReady) = false) :
+    RK s (processMessage cfg s u h) := by
+  unfold processMessage
+  simp only [hc, Bool.false_eq_true, if_false, hr]
+  split
+  · exact (removeTop_rk cfg _ s u).trans (logTop_rk cfg _ 20 _)
+  · split
+    · exact (addSub_rk cfg _ s u _).trans (sendAck_rk cfg _ _ u)
+    · split
+      · exact (removeSub_rk cfg _ s u _).trans (sendAck_rk cfg _ _ u)
+      · split
+        · split
+          · exact (logTop_rk cfg _ 40 s).trans (removeTop_rk cfg _ _ u)
+          · rename_i nm _
+            exact ((rkp_upd _ s u (fun m => { m with name := nm }) (fun _ => rfl) (fun m => ⟨rfl, fun h => ⟨h, rfl⟩⟩)).trans
+              (logTop_rk cfg _ 20 _)).trans (infoOf_rk cfg _ _ _)
+        · exact (logTop_rk cfg _ 10 s).trans (fwdTop_rk cfg _ _ _)
+
+/-- a connect request from a connection that is already connected is ignored -/
+theorem process_connected_noop (s : State) (u : Nat) (h : Hdr) (m : Module) (hm : s.find u = some m) (hcn : m.connected = true)
+    (hc : (h.mtype == cfg.mtConnect || h.mtype == cfg.mtConnectV2) = true) : processMessage cfg s u h = s := by
+  have hl : lookupMod s u = m := by unfold lookupMod; rw [hm]; rfl
+  unfold processMessage connectModule
+  simp [hc, hl, hcn]
+
+/-- MODULE_READY: the requester's entry gets the reported process id, nothing else of it changes -/
+theorem process_ready_own (s : State) (u : Nat) (h : Hdr) (m : Module) (hm : s.find u = some m)
+    (hc : (h.mtype == cfg.mtConnect || h.mtype == cfg.mtConnectV2) = false) (hr : (h.mtype == cfg.mtModuleReady) = true)
+    (hnd : (h.mtype == cfg.mtDisconnect) = false)
+    (hns : (h.mtype == cfg.mtSubscribe || h.mtype == cfg.mtResume) = false)
+    (hnu : (h.mtype == cfg.mtUnsubscribe || h.mtype == cfg.mtPause) = false) (hnn : (h.mtype == cfg.mtSetName) = false)
+    (m' : Module) (hm' : (processMessage cfg s u h).find u = some m') :
+    m'.modId = m.modId ∧ m'.pid = bufI32 s.buf 0 ∧ m'.isLogger = m.isLogger ∧ (m'.closed = false → m'.connected = m.connected) := by
+  unfold processMessage at hm'
+  simp only [hc, Bool.false_eq_true, if_false, hnd, hns, hnu, hnn, hr, if_true] at hm'
+  have hfu := find_upd_self s u (fun m => { m with pid := bufI32 s.buf 0 }) (fun _ => rfl) hm
+  obtain ⟨m0, hm0, hk⟩ := sendInfo_rk cfg (fun _ => false) (s.upd u (fun m => { m with pid := bufI32 s.buf 0 })) u u m' rfl hm'
+  rw [hfu] at hm0; cases hm0
+  have ht := hk.1
+  simp only [Module.tabv, Prod.mk.injEq] at ht
+  exact ⟨ht.1, ht.2.1, ht.2.2, fun hcl => (hk.2 hcl).2⟩
 
 end top
 
